@@ -73,9 +73,22 @@ ConstsWhy(e) ==
   ELSE IF Len(e.lo) # NComp(e.node) THEN "component-count"
   ELSE "ok"
 
+(* documented accessor values that bound nothing: CAM16-UCS a', b' of the sRGB gamut (-50 .. 50), and the chroma that
+   covers all of L*a*b* (the diagonal of the a*, b* square: its square is 2 * 128^2) *)
+AccWhy(e) ==
+  LET v == e.vals  bits == IF e.t = "f32" THEN 22 ELSE 50 IN
+  IF ~FxNear(FxOf(v.cam16ucsjab_min_srgb_a), DocFx(Q(-50, 1)), 100, bits) \/ ~FxNear(FxOf(v.cam16ucsjab_min_srgb_b), DocFx(Q(-50, 1)), 100, bits)
+     THEN "min-accessor-differs-from-documentation"
+  ELSE IF ~FxNear(FxOf(v.cam16ucsjab_max_srgb_a), DocFx(Q(50, 1)), 100, bits) \/ ~FxNear(FxOf(v.cam16ucsjab_max_srgb_b), DocFx(Q(50, 1)), 100, bits)
+     THEN "max-accessor-differs-from-documentation"
+  ELSE IF ~FxNear(FxMul(FxOf(v.lch_max_extended_chroma), FxOf(v.lch_max_extended_chroma)), DocFx(Q(32768, 1)), 100, bits - 2)
+     THEN "max-accessor-differs-from-documentation"
+  ELSE "ok"
+
 Why(e) == CASE e.ev = "bounds" -> BoundsWhy(e)
             [] e.ev = "conv3" -> (IF "missing" \in DOMAIN e THEN "ok" ELSE Conv3Why(e))
             [] e.ev = "consts" -> ConstsWhy(e)
+            [] e.ev = "acc" -> AccWhy(e)
 
 TInit == l = 1
 TNext == /\ l <= Len(Rec)
